@@ -17,7 +17,7 @@
 //!     oracle), else `! C20 sig=round-bound-exceeded`; the same with drops (messages in flight lost)
 //!     and reconnects with fresh / persisted states in between (`Reachable21`, `C21_progress` of
 //!     `Props/C21Progress.lean`), reported as `! C21 sig=round-bound-exceeded`;
-//!   * `q` step in a pure session of 3 or more peers without forced false positives: the CONJECTURED
+//!   * `q` step in a pure session of 3 or more peers: the CONJECTURED
 //!     bound 4·(Σ_p |U \ arrived_p| + 1) (`! C21 sig=net-round-bound-exceeded`, validation only — the
 //!     n-peer theorem that is proved, `C21_component_converged_partial`, is what the
 //!     `quiescent-not-converged` oracle evaluates).
@@ -373,8 +373,8 @@ impl World {
         // generates, deliveries, drops and fresh / persisted reconnects): there is no PROVED round bound
         // (the n-peer progress half of C21 is open, see Props/C21Progress.lean); the bound that would follow
         // from the missing pair lemma (PairW) is 4·(lack + 1) rounds, lack = Σ_p |U \ arrived_p|.  It is
-        // checked as a conjecture, and only without forced false positives (the forced hook defeats the
-        // reset message: `C21_forced_fp_defeats_reset`).
+        // checked as a conjecture, with and without forced false positives (the hook is not consulted for
+        // the empty filter of a reset message: `C21_reset_recovers_under_forced_fp`).
         let net_lack = if self.pure && self.connected && self.n >= 3 {
             let arrived: Vec<HashSet<ChangeHash>> = (0..self.n).map(|p| self.arrived(p)).collect();
             let mut u: HashSet<ChangeHash> = HashSet::new();
@@ -412,8 +412,8 @@ impl World {
         }
         if let Some(lack) = net_lack {
             let nb = 4 * (lack + 1);
-            if !self.any_fp && ((!quiet && rounds > nb) || (quiet && rounds > nb + 1)) {
-                res.push(format!("! C21 sig=net-round-bound-exceeded rounds={} quiet={} conjectured-bound={} (4*(lack+1), lack={}; validation of the open n-peer progress statement, not a proved bound)", rounds, b01(quiet), nb, lack));
+            if (!quiet && rounds > nb) || (quiet && rounds > nb + 1) {
+                res.push(format!("! C21 sig=net-round-bound-exceeded rounds={} quiet={} conjectured-bound={} forced-fp={} (4*(lack+1), lack={}; validation of the open n-peer progress statement, not a proved bound)", rounds, b01(quiet), nb, b01(self.any_fp), lack));
             }
         }
         if !quiet {
